@@ -140,11 +140,15 @@ def run_mapping(case, ctx):
             ctx.ev('mapping_model'); ctx.fail('mapping_model', 'd - %r raised %s' % (arg, core.exc_str(res)))
     elif op == 'and':
         arg = sel[0] if case.get('single') else list(sel)
+        if case.get('view') and not case.get('single'):
+            # the selection held as a view of a plain dict, or as a tuple
+            arg = {'keys': {k: 1 for k in sel}.keys(), 'values': {i: k for i, k in enumerate(sel)}.values(), 'tuple': tuple(sel)}[case['view']]
         st, res = ctx.call(lambda: d & arg)
         exp = {k: v for k, v in base.items() if k in sel}
         if st == 'ok' and chk(res, exp, '&'):
-            st2, ks = ctx.call(lambda: d.keys() & arg)
-            ctx.check('mapping_model', st2 == 'ok' and list(res.keys()) == list(ks), lambda: '(d&k).keys() %r != d.keys()&k %r' % (list(res.keys()), ks))
+            if not case.get('view'):      # the key-list identity is stated for a single element or a list
+                st2, ks = ctx.call(lambda: d.keys() & arg)
+                ctx.check('mapping_model', st2 == 'ok' and list(res.keys()) == list(ks), lambda: '(d&k).keys() %r != d.keys()&k %r' % (list(res.keys()), ks))
             res['__new__'] = 1
             attr_mirror(res, op)
         elif st != 'ok':
@@ -346,6 +350,8 @@ def gen_map(rng):
             sel = sel + [k0 + '.b'] if rng.random() < 0.6 else [k0 + '.b']
         case['sel'] = sel
         case['single'] = len(sel) == 1 and rng.random() < 0.5
+        if op == 'and' and rng.random() < 0.3:
+            case['view'] = rng.choice(['keys', 'values', 'tuple'])
         if op in ('getlist', 'gettuple') and len(sel) == 1 and op == 'gettuple':
             case['sel'] = sel + sel
     elif op in ('add', 'or'):
